@@ -32,6 +32,10 @@ from vt import Infra
 LEVEL = "exploration"
 MODES = ["-S", "-E", "-c"]
 FLAGS = ["", "-fPIC", "-fno-common"]
+# option sets that write side files / use default output names (strengthening after seeded change C12-2): run in a
+# private working directory per (input, option set); every file found there afterwards, and stdout, are digested
+SIDE = ["-c -MD -o x.o", "-c -MMD -MF d.d -o x.o", "-c -MD -MT tgt -o x.o", "-c -MD -MP -o x.o", "-S -MD -o x.s",
+        "-M", "-M -MP -MT t -MQ a$b", "-c", "-S", "-E"]
 ENVS = ["A", "B"]
 TMPNAME = re.compile(rb"/tmp/chibicc-[A-Za-z0-9]{6}")
 
@@ -139,16 +143,22 @@ def make_corpus(ctx, tree, exprs):
     q, d = ctx.quick, ctx.tmp("corpus")
     items, skipped = [], []
 
-    def add(name, path, flags, cls):
+    def add(name, path, flags, cls, side=False):
         if uses_time_macros(open(path, errors="replace").read()):
             skipped.append(name)
             return
-        items.append(dict(name=name, path=path, flags=flags, cls=cls))
+        items.append(dict(name=name, path=path, flags=flags, cls=cls, side=side))
     for f in sorted(glob.glob(tree + "/*.c")):
-        add("own/" + os.path.basename(f), f, [], "own")
-    tests = sorted(glob.glob(tree + "/test/*.c"))
-    for f in tests if not q else vt.subsample(tests, ctx.seed, 2):
-        add("test/" + os.path.basename(f), f, ["-I" + tree + "/test", "-I" + tree], "test")     # -I<tree>: pragma-once.c includes "test/pragma-once.c"
+        add("own/" + os.path.basename(f), f, [], "own", side=True)
+    for f in sorted(glob.glob(tree + "/test/*.c")):
+        add("test/" + os.path.basename(f), f, ["-I" + tree + "/test", "-I" + tree], "test", side=True)     # -I<tree>: pragma-once.c includes "test/pragma-once.c"
+    # hand-written stress family (committed): constructs whose compilation exercises compiler code that depends on
+    # unspecified evaluation order / implementation-defined choices of the compiler that built the compiler
+    boot = sorted(glob.glob(os.path.join(vt.VERIF, "seeds", "boot", "*.c")))
+    if len(boot) < 20:
+        raise Infra("seeds/boot has only %d files" % len(boot))
+    for f in boot:
+        add("boot/" + os.path.basename(f), f, [], "boot", side=True)
     gen = [("layout/%d" % n, layout_file(n)) for n in range(40 if q else 400)]
     gen += [("expr/%d" % j, t) for j, t in enumerate(exprs)]
     gen += seed_files(ctx, 1 if q else 24)
@@ -176,24 +186,35 @@ def worker_main(jobfile):
             e = dict(os.environ)
             e.pop("CHIBICC_VERIF_TRACE", None)
             e.update(j["env"])
-            p = subprocess.Popen(j["cmd"], cwd=j["cwd"], env=e, stdin=subprocess.DEVNULL, stdout=subprocess.DEVNULL,
+            p = subprocess.Popen(j["cmd"], cwd=j["cwd"], env=e, stdin=subprocess.DEVNULL,
+                                 stdout=subprocess.PIPE if j.get("dir") else subprocess.DEVNULL,
                                  stderr=subprocess.PIPE, start_new_session=True)
+            out = b""
             try:
-                _, err = p.communicate(timeout=j["timeout"])
+                out, err = p.communicate(timeout=j["timeout"])
                 rc = p.returncode
             except subprocess.TimeoutExpired:
                 try:
                     os.killpg(p.pid, signal.SIGKILL)
                 except ProcessLookupError:
                     pass
-                _, err = p.communicate()
+                out, err = p.communicate()
                 rc = -999
-            try:
-                data = open(j["out"], "rb").read()
-                os.unlink(j["out"])
-                osha = sha(data)
-            except OSError:
-                data, osha = b"", "absent"
+            if j.get("dir"):          # every file the run left in its private directory (name and bytes) + stdout
+                parts, n = [("<stdout>", sha(out or b""))], len(out or b"")
+                for fn in sorted(os.listdir(j["dir"])):
+                    b = open(os.path.join(j["dir"], fn), "rb").read()
+                    os.unlink(os.path.join(j["dir"], fn))
+                    parts.append((fn, sha(b)))
+                    n += len(b)
+                data, osha = b"x" * min(n, 1), sha(json.dumps(parts).encode())
+            else:
+                try:
+                    data = open(j["out"], "rb").read()
+                    os.unlink(j["out"])
+                    osha = sha(data)
+                except OSError:
+                    data, osha = b"", "absent"
             err = TMPNAME.sub(b"/tmp/chibicc-XXXXXX", err or b"")
             res.write(json.dumps(dict(id=j["id"], rc=rc, sha=osha, err=sha(err)[:16], n=len(data),
                                       head=err[:200].decode(errors="replace"))) + "\n")
@@ -206,12 +227,20 @@ class Runner:
         self.bins = {1: tree + "/chibicc", 2: tree + "/stage2/chibicc", 3: tree + "/stage3/chibicc"}
         self.cwd = {"A": ctx.tmp("envA"), "B": ctx.tmp("envB/deeper/and/deeper/still/cwd")}
         self.outd = ctx.tmp("out")
+        self.sided = ctx.tmp("side")
         self.jobd = ctx.tmp("jobs")
         self.n = 0
         self.nb = 0
 
-    def job(self, item, mode, flag, stage, env):
+    def job(self, item, mode, flag, stage, env, gid=0):
         self.n += 1
+        if mode == "side":
+            d = "%s/g%d" % (self.sided, gid)
+            os.makedirs(d, exist_ok=True)
+            cmd = [self.bins[stage]] + item["flags"] + ["-I" + self.tree + "/include"] + flag.split() + [item["path"]]
+            if env == "B":
+                cmd = ["setarch", "x86_64", "-R"] + cmd
+            return dict(id=self.n, cmd=cmd, cwd=d, dir=d, gid=gid, env={"C12_PAD": "x" * 3001} if env == "B" else {}, out="", timeout=60)
         cmd = [self.bins[stage]] + item["flags"] + ["-I" + self.tree + "/include", mode] + ([flag] if flag else []) + \
               ["-o", "%s/o%d" % (self.outd, self.n), item["path"]]
         if env == "B":
@@ -219,18 +248,20 @@ class Runner:
         # -c: `as` records its working directory in .debug_line (so does gcc's); the cwd is an input of the
         # assembler, not of chibicc, and is therefore kept equal for -c
         cwd = self.cwd["A" if mode == "-c" else env]
-        return dict(id=self.n, cmd=cmd, cwd=cwd, env={"C12_PAD": "x" * 3001} if env == "B" else {},
+        return dict(id=self.n, cmd=cmd, cwd=cwd, gid=gid, env={"C12_PAD": "x" * 3001} if env == "B" else {},
                     out="%s/o%d" % (self.outd, self.n), timeout=60)
 
-    def run_many(self, work, env):
-        """work: list of (item, mode, flag, stage) -> list of (event, output size, stderr head)"""
-        jobs = [self.job(it, m, f, st, env) for it, m, f, st in work]
+    def run_many(self, work, env, gids=None):
+        """work: list of (item, mode, flag, stage) -> list of (event, output size, stderr head).
+        The runs of one group (gid) go to one worker, in order: side-file groups share a private directory."""
+        gids = gids or list(range(len(work)))
+        jobs = [self.job(it, m, f, st, env, g) for (it, m, f, st), g in zip(work, gids)]
         nw = min(vt.NCPU, max(1, len(jobs) // 8))
         files = []
         for w in range(nw):
             self.nb += 1
             jf = "%s/j%d.json" % (self.jobd, self.nb)
-            json.dump(jobs[w::nw], open(jf, "w"))
+            json.dump([j for j in jobs if j["gid"] % nw == w], open(jf, "w"))
             files.append(jf)
 
         def one(jf):
@@ -253,7 +284,7 @@ class Runner:
             t0 = time.time()
             work = [(k[0], k[1], k[2], st) for k in keys for st in (1, 2, 3)]
             idx = [ki for ki, k in enumerate(keys) for st in (1, 2, 3)]
-            for ki, r in zip(idx, self.run_many(work, env)):
+            for ki, r in zip(idx, self.run_many(work, env, idx)):
                 res.setdefault(ki, []).append(r)
             if env == "A":
                 time.sleep(max(0.0, 1.1 - (time.time() - t0)))
@@ -261,10 +292,14 @@ class Runner:
         return [(keys[ki], res[ki]) for ki in range(len(keys))]
 
     def groups(self, items, label):
-        return self.groups_of_keys([(it, m, f) for it in items for m in MODES for f in FLAGS], label)
+        keys = [(it, m, f) for it in items for m in MODES for f in FLAGS]
+        keys += [(it, "side", o) for it in items if it.get("side") for o in SIDE]
+        return self.groups_of_keys(keys, label)
 
 
 def opts_of(mode, flag):
+    if mode == "side":
+        return flag + "  [private cwd, all files]"
     return mode + (" " + flag if flag else "")
 
 
@@ -359,7 +394,7 @@ def judge(ctx, runner, head, groups, label, rerun=True):
         if any(r["rc"] == -999 for r, _, _ in runs):
             ctx.cov["timeouts_ignored"] = ctx.cov.get("timeouts_ignored", 0) + 1
             continue
-        ctx.report("fixpoint:%s:%s:%s" % (kind, mode, it["cls"]),
+        ctx.report("fixpoint:%s:%s:%s:%s" % (kind, mode, it["cls"], what),
                    "%s %s: %s differ: %s" % (it["name"], opts_of(mode, flag), what,
                                              [(r["stage"], r["env"], r["rc"], r["sha"][:8], e[:60]) for r, _, e in runs]),
                    case=dict(kind="group", name=it["name"], cls=it["cls"], flags=[f.replace(runner.tree, "$TREE") for f in it["flags"]],
@@ -456,7 +491,9 @@ def replay(ctx, path):
         return ctx.finish(rule="replay of one recorded case")
     d = ctx.tmp("corpus")
     p = "%s/%s.c" % (d, re.sub(r"[^A-Za-z0-9_.~-]", "_", c["name"]))
-    if c["cls"] in ("own", "test"):
+    if c["cls"] == "boot":
+        p = os.path.join(vt.VERIF, "seeds", c["name"])
+    elif c["cls"] in ("own", "test"):
         p = "%s/%s" % (tree, c["name"].replace("own/", ""))
     else:
         open(p, "w").write(c["text"])
